@@ -99,9 +99,16 @@ class StrictMove:
     def to_dict(self):
         return {"name": "StrictMove", "kwargs": {"marker": 42}}
 
+    received = []
+
     @classmethod
     def from_dict(cls, data):
-        raise NotImplementedError
+        import copy
+
+        cls.received.append(copy.deepcopy(data))
+        obj = cls.__new__(cls)
+        object.__setattr__(obj, "_p", {"V": None, "effect": "none", "log": [], "calls": 0, "violations": [], "atoms_notes": [], "cell_notes": [], "rebuilt": True})
+        return obj
 
 
 class StrictCriteria:
@@ -129,9 +136,16 @@ class StrictCriteria:
     def to_dict(self):
         return {"name": "StrictCriteria", "kwargs": {"marker": 7}}
 
+    received = []
+
     @classmethod
     def from_dict(cls, data):
-        raise NotImplementedError
+        import copy
+
+        cls.received.append(copy.deepcopy(data))
+        obj = cls.__new__(cls)
+        object.__setattr__(obj, "_p", {"V": None, "log": [], "calls": 0, "violations": [], "rebuilt": True})
+        return obj
 
 
 EFFECT = {"MonteCarlo": "none", "Canonical": "displace", "HamiltonianCanonical": "displace", "Isobaric": "cell", "Isotension": "cell", "GrandCanonical": "insert"}
@@ -145,9 +159,9 @@ def _driver(V, name, atoms, exch):
     return mcsim.make_driver(V, name, atoms, exchange=exch, nexch=0)
 
 
-def sc_driver(V, driver="Canonical", with_shipped=False, trials=2, effect=None, cycles=1):
+def sc_driver(V, driver="Canonical", with_shipped=False, trials=2, effect=None, cycles=1, restore=False):
     """`trials` = total number of trials; with cycles>1 they are the cycles of ONE step."""
-    info = f"{driver}:shipped={with_shipped}:effect={effect}:cycles={cycles}"
+    info = f"{driver}:shipped={with_shipped}:effect={effect}:cycles={cycles}" + (":restore" if restore else "")
     atoms = mcsim.make_atoms(V, 2, momenta=(driver == "HamiltonianCanonical"), extras=False)
     pes = mcsim.PES(V)
     atoms.calc = mcsim.ModelCalc("caching", pes)
@@ -224,6 +238,36 @@ def sc_driver(V, driver="Canonical", with_shipped=False, trials=2, effect=None, 
     V.prove(ok_flow and hist == exp_hist, "truthy-to-criteria/falsy-not-attempted", info=info + f":history={hist}:expected={exp_hist}")
     ms = d.get("moves", {}).get("user", {})
     V.prove(ms.get("kwargs", {}).get("move") == {"name": "StrictMove", "kwargs": {"marker": 42}} and ms.get("kwargs", {}).get("criteria") == {"name": "StrictCriteria", "kwargs": {"marker": 7}}, "serialized-with-the-simulation", info=info)
+    # dictionary conversion, the way back: the simulation rebuilt from its dictionary hands each user component
+    # exactly the dictionary that component produced
+    if restore:
+        import copy
+
+        from quansino.registry import register_class
+
+        register_class(StrictMove, "StrictMove")
+        register_class(StrictCriteria, "StrictCriteria")
+        StrictMove.received.clear()
+        StrictCriteria.received.clear()
+        try:
+            d2 = copy.deepcopy(d)
+            import numpy.random as _npr
+
+            d2["rng_state"] = _npr.PCG64(5).state  # (the harness drives the live simulation with a stub generator)
+            mc2 = type(mc).from_dict(d2)
+        except (symx.PathAbort, symx.BoundHit, symx.Unsupported, symx.ReplayMismatch):
+            raise
+        except Exception as ex:  # noqa: BLE001
+            V.fail("rebuilt-from-their-own-dictionaries", info=info + ":" + type(ex).__name__ + ":" + str(ex)[:70])
+            mc2 = None
+        if mc2 is not None:
+            V.reach("restored")
+            want_m, want_c = mv.to_dict(), cr.to_dict()
+            okm = bool(StrictMove.received) and all(r == want_m for r in StrictMove.received)
+            okc = bool(StrictCriteria.received) and all(r == want_c for r in StrictCriteria.received)
+            V.prove(okm and okc, "rebuilt-from-their-own-dictionaries", info=info + f":move-got={StrictMove.received[:1]}:criteria-got={StrictCriteria.received[:1]}")
+            st2 = mc2.moves.get("user")
+            V.prove(st2 is not None and type(st2.move) is StrictMove and type(st2.criteria) is StrictCriteria, "rebuilt-from-their-own-dictionaries", info=info + ":rebuilt table entry")
     # notifications
     eff = effect or EFFECT[driver]
     if eff == "shear":
@@ -268,6 +312,8 @@ def _plan(tier):
         P.append(("driver", dict(driver=d, with_shipped=(d in ("Canonical", "GrandCanonical", "Isobaric")), trials=2), ()))
     P.append(("driver", dict(driver="Isobaric", with_shipped=False, trials=2, effect="shear"), ()))
     P.append(("driver", dict(driver="Isotension", with_shipped=True, trials=2, effect="shear"), ()))
+    for d in ("MonteCarlo", "Canonical", "Isobaric", "GrandCanonical"):
+        P.append(("driver", dict(driver=d, with_shipped=(d == "Canonical"), trials=1, restore=True), ("restored",)))
     # several cycles inside one step (the verdict of one cycle must not leak into the next)
     P.append(("driver", dict(driver="MonteCarlo", trials=3, cycles=3), ()))
     P.append(("driver", dict(driver="GrandCanonical", trials=2, cycles=2), ()))
